@@ -524,10 +524,16 @@ pub fn writers(a: &Args, o: &mut Obs) {
     let count = a.usize("count", 1000);
     let only = a.get("only").map(|v| v.parse::<usize>().unwrap());
     let nrows = prows().len();
+    let secs = a.u64("secs", u64::MAX);
+    let t0 = std::time::Instant::now();
     for c in 0..count {
         let g = shard + c * nshards;
         if only.map(|x| x != g).unwrap_or(false) {
             continue;
+        }
+        if c % 256 == 0 && t0.elapsed().as_secs() >= secs {
+            o.add("time_capped_shards", 1);
+            break;
         }
         let case = format!("wr:{seed}:{g}");
         if c % 64 == 0 || only.is_some() {
